@@ -1,4 +1,4 @@
-(* C19 — RPC framing admits all valid messages and bounds reads; responses deliver errors as errors. *)
+(* C19 — RPC framing accepts all valid messages and bounds reads; responses deliver errors as errors. *)
 From Coq Require Import String.
 From Coq Require Import List NArith Bool.
 From Sia Require Import Prim.Tok Codec.Schema Codec.Shape Codec.Size Codec.Framing Gen.Schemas Gen.Limits.
@@ -13,13 +13,13 @@ Proof. exact enc_size. Qed.
 Print Assumptions C19_size_bound.
 
 (* a message that fits the receiver's limit is decoded to the same object, whatever follows on the stream *)
-Theorem C19_frame_admits : forall (recog : string -> bytes -> option (bytes * bytes)) (rvalid : string -> bytes -> Prop),
+Theorem C19_frame_accepts : forall (recog : string -> bytes -> option (bytes * bytes)) (rvalid : string -> bytes -> Prop),
   (forall name b rest, rvalid name b -> recog name (b ++ rest) = Some (b, rest)) ->
   (forall name b, rvalid name b -> 1 <= length b) ->
   forall maxLen s v rest, wf s -> wt rvalid s v -> length (enc s v) <= maxLen ->
   read_limited recog maxLen s (enc s v ++ rest) = Some (v, firstn (maxLen - length (enc s v)) rest).
-Proof. exact frame_admits. Qed.
-Print Assumptions C19_frame_admits.
+Proof. exact frame_accepts. Qed.
+Print Assumptions C19_frame_accepts.
 
 (* the receiver's decoder never sees more than maxLen bytes, and what it returns does not depend on anything beyond them *)
 Theorem C19_read_bounded : forall maxLen (stream : bytes), length (firstn maxLen stream) <= maxLen.
@@ -31,14 +31,14 @@ Proof. exact frame_ignores_beyond. Qed.
 Print Assumptions C19_read_ignores_beyond.
 
 (* size bound and limit together *)
-Theorem C19_sized_admitted : forall (recog : string -> bytes -> option (bytes * bytes)) (rvalid : string -> bytes -> Prop),
+Theorem C19_sized_accepted : forall (recog : string -> bytes -> option (bytes * bytes)) (rvalid : string -> bytes -> Prop),
   (forall name b rest, rvalid name b -> recog name (b ++ rest) = Some (b, rest)) ->
   (forall name b, rvalid name b -> 1 <= length b) ->
   forall maxLen s b v rest, wf s -> wt rvalid s v -> within s b v ->
   (maxsize s b <= N.of_nat maxLen)%N ->
   read_limited recog maxLen s (enc s v ++ rest) = Some (v, firstn (maxLen - length (enc s v)) rest).
-Proof. exact sized_admitted. Qed.
-Print Assumptions C19_sized_admitted.
+Proof. exact sized_accepted. Qed.
+Print Assumptions C19_sized_accepted.
 
 (* responses: flag byte + error or object; either is delivered as itself *)
 Theorem C19_response_delivered : forall (recog : string -> bytes -> option (bytes * bytes)) (rvalid : string -> bytes -> Prop),
@@ -54,9 +54,9 @@ Print Assumptions C19_response_delivered.
 (* re-checked against /repo on every run: for every rhp/v4 RPC object with crisp protocol limits, the maximal size
    under those limits (from the regenerated shape) is within the limit its receiver applies (from the implementation's
    own maxLen() values), and an error with a description of up to ERRDESC bytes fits every response limit *)
-Theorem C19_limits_admit_all : failing_objects = [].
-Proof. exact limits_admit_all. Qed.
-Print Assumptions C19_limits_admit_all.
+Theorem C19_limits_accept_all : failing_objects = [].
+Proof. exact limits_accept_all. Qed.
+Print Assumptions C19_limits_accept_all.
 Theorem C19_error_fits : match object_size "rhp/v4.RPCError" [ERRDESC] with Some sz => (sz <=? ERRMAX)%N | None => false end = true.
 Proof. exact error_fits. Qed.
 Print Assumptions C19_error_fits.
